@@ -252,7 +252,18 @@ fn check_cli(case: &Case, ctx: &Ctx) -> Outcome {
         cli::to_crlf(&f);
     }
     let ks = case.k.to_string();
-    let mut args = vec!["build", "-o", "out", "-k", &ks, "smp.fa"];
+    // In some cases (always for the default k = 17) the assembly is built from a list in which a read
+    // pair stands next to it: the FASTA sample must come out exactly as on its own.
+    let companion = !dict.is_empty() && (case.k == 17 || seqs.len() + case.k / 2 % 5 == 3);
+    let reads: Vec<Vec<u8>> = vec![gen::filler(case.k + 6, 3), model::revcomp(&gen::filler(case.k + 4, 5))];
+    let mut args = if companion {
+        cli::write_fastq(&dir.join("reads_1.fastq"), &[(reads[0].clone(), vec![b'I'; reads[0].len()])]);
+        cli::write_fastq(&dir.join("reads_2.fastq"), &[(reads[1].clone(), vec![b'I'; reads[1].len()])]);
+        std::fs::write(dir.join("list.txt"), "smp\tsmp.fa\nreads\treads_1.fastq\treads_2.fastq\n").unwrap();
+        vec!["build", "-o", "out", "-k", &ks, "-f", "list.txt", "--min-count", "1", "--qual-filter", "no-filter"]
+    } else {
+        vec!["build", "-o", "out", "-k", &ks, "smp.fa"]
+    };
     if !case.rc {
         args.push("--single-strand");
     }
@@ -267,7 +278,11 @@ fn check_cli(case: &Case, ctx: &Ctx) -> Outcome {
         }
         must_ok(&o, "ska build")?;
         let nk = nk(ctx, &dir, "out.skf")?;
-        let t = model::Table::from_samples(&["smp".to_string()], &[dict.clone()]);
+        let t = if companion {
+            model::Table::from_samples(&["smp".to_string(), "reads".to_string()], &[dict.clone(), model::build_sample(&reads, case.k, case.rc)])
+        } else {
+            model::Table::from_samples(&["smp".to_string()], &[dict.clone()])
+        };
         model::compare_nk(&nk, &t, case.k, case.rc, Some(k_bits_for(case.k))).map_err(Outcome::Fail)
     })();
     ctx.done(&dir);
@@ -286,7 +301,7 @@ fn check_cli(case: &Case, ctx: &Ctx) -> Outcome {
     }
 }
 
-const RULE: &str = "generated: k over all 30 valid values (boundary-weighted), strand mode, 1-4 records from op-scripts (random ACGT/AC, N runs, copies of earlier windows with a new middle base in either orientation, self-reverse-complement arms, poly-A, forced lengths k-1..k+2/2k/2k+1, an N planted k..k+2 before the end, case masks, line widths, Unix or Windows line endings). Non-trivial: >=1 window and (record of length k or k+1, or N within k+1 of a record end, or a k-mer with >=2 middle bases, or a self-rc k-mer, or >=2 records, or mixed case, or k>=33). Distinct by (k, strand, record strings).";
+const RULE: &str = "generated: k over all 30 valid values (boundary-weighted), strand mode, 1-4 records from op-scripts (random ACGT/AC, N runs, copies of earlier windows with a new middle base in either orientation, self-reverse-complement arms, poly-A, forced lengths k-1..k+2/2k/2k+1, an N planted k..k+2 before the end, case masks, line widths, Unix or Windows line endings); in the cli stage some assemblies (all with k = 17) are built from a list next to a read pair. Non-trivial: >=1 window and (record of length k or k+1, or N within k+1 of a record end, or a k-mer with >=2 middle bases, or a self-rc k-mer, or >=2 records, or mixed case, or k>=33). Distinct by (k, strand, record strings).";
 
 pub fn show(case: &Case) -> serde_json::Value {
     let seqs = gen::materialise_recs(&case.recs, case.k);
